@@ -3,7 +3,9 @@ package main
 import (
 	"go/ast"
 	"go/token"
+	"go/types"
 	"sort"
+	"strings"
 )
 
 // R-LAZY-PASSTHROUGH: raw pass-through of still-lazy bytes in Size/Marshal
@@ -67,5 +69,76 @@ func (c *Ctx) ruleLazyPassthrough(rule string) {
 			})
 			R.Check(dom, rule, fi.Key+" passthrough#"+itoa(i+1), P.Pos(call), "under lazyFields/fullyLazyExtensions", "raw lazy bytes are used without testing lazyFields(opts)/fullyLazyExtensions(opts): deterministic marshaling would emit the sender's (possibly non-canonical) encoding")
 		}
+	}
+}
+
+// R-LAZY-FLAG-GATE: a message may be left in lazy (undecoded) form only if no
+// option of the Unmarshal call would have changed what decoding it produces.
+// UnmarshalDiscardUnknown is such an option: bytes kept undecoded still contain
+// the unknown fields and Size/Marshal re-emit them until the field happens to
+// be accessed. CanBeLazy tolerates a fixed set of flags; DiscardUnknown must
+// not be among them.
+func (c *Ctx) ruleLazyFlagGate(rule string) {
+	R, P := c.R, c.P
+	R.Rule(rule, "unmarshalOptions.CanBeLazy tolerates only flags that do not change the decoded content (the tolerated mask contains neither UnmarshalDiscardUnknown nor UnmarshalNoLazyDecoding) and refuses lazy decoding for a non-global resolver, since the deferred decode uses the global one", 1)
+	fi := c.need(rule, "internal/impl.unmarshalOptions.CanBeLazy")
+	if fi == nil {
+		return
+	}
+	info := fi.Info()
+	pk := P.Pkg("runtime/protoiface")
+	if pk == nil {
+		R.Unk(rule, fi.Key, P.Pos(fi.Decl), "runtime/protoiface not loaded")
+		return
+	}
+	dc, _ := pk.Types.Scope().Lookup("UnmarshalDiscardUnknown").(*types.Const)
+	if dc == nil {
+		R.Unk(rule, fi.Key, P.Pos(fi.Decl), "UnmarshalDiscardUnknown not found")
+		return
+	}
+	discard, _ := constantInt64(dc.Val())
+	var tolerated int64 = -1
+	walk(fi.Decl.Body, func(n ast.Node) bool {
+		un, ok := n.(*ast.UnaryExpr)
+		if !ok || un.Op != token.XOR {
+			return true
+		}
+		if v, ok := constInt(info, un.X); ok {
+			tolerated = v
+		}
+		return true
+	})
+	// NoLazyDecoding is a flag bit: it must not be tolerated either
+	noLazyBit := int64(0)
+	if nc, _ := pk.Types.Scope().Lookup("UnmarshalNoLazyDecoding").(*types.Const); nc != nil {
+		noLazyBit, _ = constantInt64(nc.Val())
+	}
+	// the deferred decode resolves extensions with the global registry: lazy only if the caller's resolver is that registry
+	resolverGate := false
+	walk(fi.Decl.Body, func(n ast.Node) bool {
+		if is, ok := n.(*ast.IfStmt); ok {
+			if be, ok := unparen(is.Cond).(*ast.BinaryExpr); ok && be.Op == token.NEQ && strings.Contains(exprStr(be), "resolver") && strings.Contains(exprStr(be), "GlobalTypes") {
+				for _, st := range is.Body.List {
+					if rs, ok := st.(*ast.ReturnStmt); ok && len(rs.Results) == 1 {
+						if v, ok := constBool(info, rs.Results[0]); ok && !v {
+							resolverGate = true
+						}
+					}
+				}
+			}
+		}
+		return true
+	})
+	switch {
+	case tolerated < 0:
+		R.Unk(rule, fi.Key, P.Pos(fi.Decl), "tolerated-flags mask `o.flags & ^(…) == 0` not found")
+	case tolerated&discard != 0:
+		R.Bad(rule, fi.Key, P.Pos(fi.Decl), "the flags tolerated for lazy decoding include UnmarshalDiscardUnknown: a lazily kept submessage retains its unknown fields, and Size/Marshal re-emit them until the field is first accessed, although the caller asked to discard them")
+	case noLazyBit != 0 && tolerated&noLazyBit != 0:
+		R.Bad(rule, fi.Key, P.Pos(fi.Decl), "the flags tolerated for lazy decoding include UnmarshalNoLazyDecoding: the option is ignored")
+	case !resolverGate:
+		R.Bad(rule, fi.Key, P.Pos(fi.Decl), "CanBeLazy does not refuse lazy decoding for a resolver other than the global registry although the deferred decode (lazyUnmarshalOptions) resolves extensions with protoregistry.GlobalTypes: extensions known only to the caller's resolver would become unknown fields when the lazy field is expanded")
+	default:
+		R.OK(rule, fi.Key, P.Pos(fi.Decl), "tolerated mask excludes UnmarshalDiscardUnknown and UnmarshalNoLazyDecoding; lazy only with the global resolver")
 	}
 }
